@@ -1071,7 +1071,8 @@ func jsonComponent(r *hx.Run) {
 		r.Case(class, "jlog", u, e, logReal(uniq, rs))
 	}
 	// de-duplication over MANY distinct hosts (a live scan of a large network): more than 2^16 of them
-	for _, n := range []int{65536 + 1 + r.Rng.Intn(50), 70000 + r.Rng.Intn(20000)} {
+	// … and enough of them that any 32-bit digest of the ID would collide (n^2 / 2^33 ≈ 10 expected pairs)
+	for _, n := range []int{65536 + 1 + r.Rng.Intn(50), 300000 + r.Rng.Intn(20000)} {
 		rep := 1 + r.Rng.Intn(n)
 		r.Count("uniqbig")
 		r.Case("uniqbig", "juniqbig", strconv.Itoa(n), strconv.Itoa(rep), runUniqBig(n, rep))
